@@ -244,10 +244,13 @@ pub fn check_graph(gs: &GraphSpec, count: &mut SeqCount) -> Result<Option<SeqVio
 
 fn gen_seq_graph(seed: u64) -> GraphSpec {
     let mut rng = Rng::new(seed);
-    let n = match rng.below(10) {
-        0 => rng.below(2),
-        1..=6 => rng.range(2, 7),
-        _ => rng.range(8, 24),
+    let n = match rng.below(50) {
+        0..=4 => rng.below(2),
+        5..=34 => rng.range(2, 7),
+        35..=47 => rng.range(8, 24),
+        48 => rng.range(25, 70),
+        // beyond the usual small-size fast paths (insertion-sort cut-offs, 64, 128, 256)
+        _ => [129, 257, 300][rng.below(3)],
     };
     let dm = pick_decl_mode(&mut rng, true);
     gen_graph(&mut rng, n, dm)
@@ -484,6 +487,8 @@ pub fn check_c14(base: u64, runs: u64, threads: usize, out: Option<&str>, replay
             "simulated_time_units": 0,
             "max_functions": a.max_n,
             "step_caps": 0,
+            "liveness_cap_max_use_permille": 0,
+            "step_cap_max_use_permille": 0,
             "counters": {"graphs": a.graphs, "fault.failing_position_enumerated": a.fail_positions},
             "samples": samples,
             "violation": violation,
